@@ -11,7 +11,7 @@ COMMON_ASSUMPTIONS = [
 
 PROPS = {
     "C01": {
-        "rules": ["T4", "T5", "T11", "T6", "T3", "G1", "G1c", "G2", "G3", "G4", "G5", "K6", "T13"],
+        "rules": ["T4", "T5", "T11", "T6", "T3", "G1", "G1c", "G2", "G3", "G4", "G5", "K6", "T13", "N2"],
         "decides": "Per-keyword conformance skeleton: one type-guarded validator per keyword, spec comparison "
                    "operators, bool-aware deep JSON equality, member resolution cases, composition counting, "
                    "validate-all-then-construct, recursive parsing of every sub-schema position.",
@@ -27,14 +27,14 @@ PROPS = {
         "not_decided": "equality of the executed module with the parsed model; de-duplication correctness.",
     },
     "C03": {
-        "rules": ["K2", "K4", "T1", "T3", "T6", "T13", "D3", "T15"],
+        "rules": ["K2", "K4", "T1", "T3", "T6", "T13", "D3", "T15", "K11", "T16"],
         "decides": "no keyword value is overwritten or deleted on the way out; properties and required are "
                    "emitted under JSON names; every constructor keyword is in the enumeration the serializer "
                    "walks; every nested position is recursed; type names invert the parser's.",
         "not_decided": "that the emitted document accepts the same values; $ref resolvability for multi-root calls.",
     },
     "C04": {
-        "rules": ["G12", "P1", "G3", "G4", "G5"],
+        "rules": ["G12", "P1", "G3", "G4", "G5", "G13"],
         "decides": "containers are rebuilt from all members in order with no filter; scalar construction is the "
                    "identity except Number's float(); the input is never written.",
         "not_decided": "key collisions between JSON and Python names in the result; which composition branch builds it.",
@@ -47,7 +47,7 @@ PROPS = {
         "not_decided": "conversion 'exactly as if supplied' for nested defaults beyond G6 + purity.",
     },
     "C06": {
-        "rules": ["T1", "T2", "T6", "K1", "K2", "K3", "K4", "K7", "D3", "T13", "K9", "K10"],
+        "rules": ["T1", "T2", "T6", "K1", "K2", "K3", "K4", "K7", "D3", "T13", "K9", "K10", "N4"],
         "decides": "structural preconditions of the round trip: parser, serializer, repr and class generator "
                    "enumerate the same keywords; nothing read is dropped; falsy values survive; names keep their kind.",
         "not_decided": "the identity itself.",
@@ -142,7 +142,7 @@ PROPS = {
         "not_decided": "eval(repr(x)) == x.",
     },
     "C19": {
-        "rules": ["G7", "A1", "A2", "A3", "G3", "G2", "T5"],
+        "rules": ["G7", "A1", "A2", "A3", "G3", "G2", "T5", "G13"],
         "decides": "Maybe[] dropped only for required-or-defaulted; leaf annotations agree with the type validator "
                    "and construct; union/list annotations draw from every contributing element; the composition "
                    "result comes from an element the annotation drew from.",
